@@ -33,6 +33,7 @@ type ProtModel struct {
 	eval       []float64  // Eigen values
 	alpha      float64    // Alpha
 	usegamma   bool
+	exch       *mat.Dense // exchangeabilities (mat is overwritten by InitModel)
 }
 
 // Initialize a new protein model, given the name of the model as const int:
@@ -69,6 +70,7 @@ func NewProtModel(model int, usegamma bool, alpha float64) (*ProtModel, error) {
 		nil,
 		alpha,
 		usegamma,
+		nil,
 	}, nil
 }
 
@@ -117,7 +119,11 @@ func (model *ProtModel) InitModel(aafreqs []float64) error {
 	}
 
 	/* multiply the nth col of Q by the nth term of pi/100 just as in PAML */
-	model.mat.Apply(func(i, j int, v float64) float64 { return v * model.pi[j] / 100.0 }, model.mat)
+	/* (from the exchangeabilities, not from the Q of a previous initialization) */
+	if model.exch == nil {
+		model.exch = mat.DenseCopyOf(model.mat)
+	}
+	model.mat.Apply(func(i, j int, v float64) float64 { return model.exch.At(i, j) * model.pi[j] / 100.0 }, model.mat)
 
 	/* compute diagonal terms of Q and mean rate mr = l/t */
 	model.mr = .0
